@@ -44,6 +44,7 @@ class Report(object):
         self.rules = {}            # rule id -> description
         self.notes = []
         self.coverage_drops = []
+        self.collapsed = []
         self.analysed = {}
         self.assumptions = []
         self.trusted = []
@@ -71,10 +72,15 @@ class Report(object):
         self.notes.append(text)
 
     def floor(self, rule, what, count, reference):
-        """Hand-confirmed reference count; a drop is recorded, never a failure."""
+        """Hand-confirmed reference count.  A small drop is recorded (a refactoring may merge two functions);
+        a collapse - nothing found, or fewer than half of what was confirmed by hand - means the rule no longer
+        sees its subjects and would pass vacuously: that is an analysis error (exit 2), never a pass."""
         self.analysed['%s:%s' % (rule, what)] = count
         if count < reference:
             self.coverage_drops.append('%s %s: %d < reference %d' % (rule, what, count, reference))
+        if count == 0 or count * 2 < reference:
+            self.collapsed.append('%s %s: %d of %d expected subjects found (vacuous pass forbidden)' % (
+                rule, what, count, reference))
 
     # ------------------------------------------------------------------
     def finish(self):
@@ -129,7 +135,9 @@ class Report(object):
                 print('  %s %s:%s %s [%s] found: %s ; expected: %s' % (
                     i.rule, i.file, i.line, i.func or '', i.name, i.found, i.expected))
                 print('VIOLATION property=%s replay=%s' % (self.prop, (os.path.relpath(rp, VERIF) if rp.startswith(VERIF) else rp)))
-        if undec or empty_rules:
+        if undec or empty_rules or self.collapsed:
+            for c in self.collapsed:
+                print('ANALYSIS-ERROR coverage collapsed: %s' % c)
             for i in undec:
                 print('ANALYSIS-ERROR %s %s:%s [%s] %s' % (i.rule, i.file, i.line, i.name, i.found))
             for r in empty_rules:
